@@ -60,10 +60,24 @@ def run(tier, seed, t0):
     for k, x in enumerate(slow):
         x["fault"], x["at"] = "close-behind-reply", k
     scn += slow
+    # a client-side protocol exception with the server still talking behind the offending frame: the cause
+    # reported must stay ClientException and the Close must still go out
+    from checks import c07
+    M = lambda ch, name: {"k": "method", "ch": ch, "name": name, "tag": "c1"}
+    illegal = [M(1, "channel.flow"), M(2, "tx.select"), M(1, "basic.publish"), M(0, "queue.declare-ok"),
+               {"k": "header", "ch": 0, "mid": 1, "size": 4}]
+    trailing = [[], [{"k": "hb", "ch": 0}], [M(2, "queue.declare-ok")],
+                [{"k": "deliver_m", "ch": 1, "tag": "c1", "mid": 1, "len": 4}, {"k": "header", "ch": 1, "mid": 1, "size": 0}]]
+    k = 0
+    for a in illegal:
+        for t in trailing:
+            x = c07.scenario([a] + t, k)
+            x.update(kind="crash-cliexc", fault="client-exception", at=k)
+            scn.append(x)
+            k += 1
     files, summ = vlib.run_sessions(PROP, scn, tier, hang_ms=5000 if tier == "quick" else 20000)
     consumed, bad = vlib.validate_traces("ConnTrace", "ConnTrace.cfg", files, timeout=3000, xmx="4g")
-    v = vlib.Verdict(PROP, own_kinds=("crash-offset", "crash-write", "crash-step", "crash-hb-silence",
-                                       "connclose-slowcaller"))
+    v = vlib.Verdict(PROP, own_kinds=("crash-", "connclose-slowcaller"))
     v.absorb(bad)
     kinds = Counter((s["kind"], s["fault"]) for s in scn)
     distinct = len({(s["kind"], s["fault"], s["at"]) for s in scn})
@@ -75,7 +89,8 @@ def run(tier, seed, t0):
              "offset after the handshake (%s) with EOF or connection reset; every client write with a write error; "
              "every step boundary with an unparseable frame / EOF / reset / failing next write; plus sessions in which the "
              "server (or the CloseOk of a client close, or a channel close) ends things right behind the reply of a caller "
-             "that is held just before it picks its reply up. Other threads are inside a "
+             "that is held just before it picks its reply up; plus client-side protocol exceptions (5 illegal server "
+             "frames) with the server still talking behind the offending frame. Other threads are inside a "
              "blocked call, a publish or own a consumer queue at that moment. distinct/non-trivial = distinct (kind of "
              "fault, position)" % (total, writes, "all offsets" if tier == "thorough" else
                                    "every 3rd offset plus a seeded sample of 150"),
